@@ -499,6 +499,7 @@ func registerIntrinsics(e *Engine) {
 	}
 	registerEnvStubs(e)
 	registerJSONCodec(e)
+	registerLibModels(e)
 }
 
 func strLess(ps *pathState, a, b value) bool {
@@ -687,12 +688,35 @@ func (i *interpreter) format(fr *frame, f value, args []value) value {
 				k = j + 1
 				continue
 			}
+		}
+		// other flags / width / precision: the real fmt on a concrete operand
+		if strings.IndexByte("+-# 0123456789.", verb) >= 0 {
+			j := k
+			for j < len(format) && strings.IndexByte("+-# 0123456789.", format[j]) >= 0 {
+				j++
+			}
+			if j < len(format) && argi < len(args) {
+				spec := "%" + format[k-1:j+1]
+				if nat, ok := nativeScalar(args[argi]); ok && strings.IndexByte("sdvqxXfgeEGtcUobp", format[j]) >= 0 {
+					parts = append(parts, fmt.Sprintf(spec, nat))
+					argi++
+					k = j + 1
+					continue
+				}
+			}
 			panic(unsupported{"format flags " + format[k-2:]})
 		}
 		if verb == 'w' {
 			verb = 'v'
 		}
 		if strings.IndexByte("sdtvfqc", verb) < 0 {
+			if argi < len(args) {
+				if nat, ok := nativeScalar(args[argi]); ok && strings.IndexByte("xXgeEGUobT", verb) >= 0 {
+					parts = append(parts, fmt.Sprintf("%"+string(verb), nat))
+					argi++
+					continue
+				}
+			}
 			panic(unsupported{fmt.Sprintf("format verb %%%c", verb)})
 		}
 		if argi >= len(args) {
@@ -787,6 +811,22 @@ func (i *interpreter) formatOne(fr *frame, verb byte, arg value) value {
 }
 
 var _ = sort.Strings
+
+// nativeScalar returns the Go value of a concrete scalar operand (for formatting by the real fmt).
+func nativeScalar(arg value) (any, bool) {
+	v := arg
+	if itf, ok := arg.(iface); ok {
+		if itf.t == nil {
+			return nil, true
+		}
+		v = itf.v
+	}
+	switch x := v.(type) {
+	case string, bool, int, int8, int16, int32, int64, uint, uint8, uint16, uint32, uint64, uintptr, float32, float64:
+		return x, true
+	}
+	return nil, false
+}
 
 // formatPadded renders %0<width>x / X / d of an integer operand. A symbolic operand of at most
 // 4*width bits is rendered digit by digit as symbolic characters (hexadecimal only).
